@@ -10,6 +10,8 @@ import (
 	"fmt"
 	"hash/fnv"
 	"os"
+	"path/filepath"
+	"regexp"
 	"sort"
 	"strconv"
 	"strings"
@@ -191,9 +193,32 @@ func Flush() {
 // Main is the TestMain body of every check package.
 func Main(m *testing.M) {
 	flag.Parse()
+	StageFuzzCrasher()
 	code := m.Run()
 	Flush()
 	os.Exit(code)
+}
+
+// StageFuzzCrasher lets a crasher written by a native fuzzing campaign be replayed through the driver
+// (./check <id> --replay <dir>): the driver hands files named <Target>.fail to the test binary as -rapid.failfile; a
+// file in the "go test fuzz v1" format is copied into the seed corpus directory of its target (relative to the scratch
+// working directory of the run), where the testing package picks it up and runs it as a seed.
+func StageFuzzCrasher() {
+	f := flag.Lookup("rapid.failfile")
+	if f == nil || f.Value.String() == "" {
+		return
+	}
+	p := f.Value.String()
+	data, err := os.ReadFile(p)
+	if err != nil || !strings.HasPrefix(string(data), "go test fuzz v1") {
+		return
+	}
+	name := strings.TrimSuffix(filepath.Base(p), ".fail")
+	name = regexp.MustCompile(`-\d{14}-\d+$`).ReplaceAllString(name, "")
+	dir := filepath.Join("testdata", "fuzz", name)
+	if err := os.MkdirAll(dir, 0o755); err == nil {
+		_ = os.WriteFile(filepath.Join(dir, "replayed-crasher"), data, 0o644)
+	}
 }
 
 // Tier is "quick" or "thorough".
